@@ -389,6 +389,48 @@ func c16Round(w *mon.W, round int) {
 				b.srv.LeaveRoom(room)
 			}
 		}
+		// re-join of a full room by one of its members: the room is filled to its limit, every member joins it once
+		// more (a client re-sending join_room, a handler calling ws.join twice), a non-member tries too. Whatever the
+		// room answers, both views must still agree for everybody. Sequential: no interleaving is needed for this.
+		{
+			room := fmt.Sprintf("rejoin-%d", phase)
+			var in, all []*c16Client
+			for _, c := range x.clients {
+				if c.srv == nil || c.closed.Load() {
+					continue
+				}
+				all = append(all, c)
+				c.srv.JoinRoom(room)
+			}
+			for _, c := range all {
+				c.srv.JoinRoom(room) // members again, refused ones again
+				if c.srv.IsInRoom(room) {
+					in = append(in, c)
+				}
+			}
+			r3, exists := rm.GetRoom(room)
+			for _, c := range all {
+				own := c.srv.IsInRoom(room)
+				has := exists && r3.Has(c.srv)
+				w.Count("rejoin_views_compared", 1)
+				if own != has {
+					// a connection the hub is dropping right now changes both views one after the other: look again
+					time.Sleep(60 * time.Millisecond)
+					r3, exists = rm.GetRoom(room)
+					own = c.srv.IsInRoom(room)
+					has = exists && r3.Has(c.srv)
+				}
+				if _, registered := x.hub.GetConnection(c.srv.ID); own != has && registered && !c.closed.Load() {
+					w.Violate("membership-views-disagree:after-rejoining-a-room", fmt.Sprintf("client %d joined room %s twice (MaxConnectionsPerRoom=%d, %d clients tried): conn.IsInRoom=%v but room.Has(conn)=%v", c.idx, room, x.maxRoom, len(all), own, has), wit(map[string]interface{}{"room": room}))
+					break
+				}
+			}
+			for _, c := range all {
+				c.srv.LeaveRoom(room)
+			}
+			_ = in
+			x.ops.Add(int64(3 * len(all)))
+		}
 		// leave-then-send order: a connection brackets each stay in a room with two frames sent to itself, [ before the
 		// JoinRoom call and ] after LeaveRoom returned, while another goroutine broadcasts to that room without pause
 		// (from outside the hub loop, like an HTTP route does). Frames to one connection keep their order, and a room frame
